@@ -15,7 +15,7 @@ import json
 import os
 import shutil
 
-from . import kernel, profiles, state
+from . import kernel, profiles, seams, state
 from .kernel import Chooser
 from .scenario import Gen
 
@@ -392,10 +392,14 @@ def runner(scenario, prof, seed, trace=None, then_generate=False, props=()):
                         w.emit("c10_ret", vp, **ret)
                         if scenario.get("operator_heals"):
                             # a simulated operator removes the deliberate deadlock marker
+                            # (atomic, harness-side: check and removal at one instant, so that the
+                            # operator can never remove a live holder's marker)
                             try:
                                 lp = os.path.join(out, "cluster_config.json.lock")
                                 if os.path.getsize(lp) == 0:  # only the deliberate empty marker
-                                    os.unlink(lp)
+                                    seams.REAL["os.unlink"](lp)
+                                    w.emit("operator_heal", vp, path=w.rel(lp))
+                                    w.wake_lock_waiters(lp)
                             except OSError:
                                 pass
                             mon.dead = False
